@@ -79,6 +79,15 @@ def TreeS(d=2):
     return Struct(M.Tree, {"v": Int(), "kids": kids}, name="Tree")
 
 
+def PersonS(d=2):
+    peers = Seq(list[M.Person], list, Lazy(lambda: PersonS(max(d - 1, 0))), 1 if d > 0 else 0, "list[Person]")
+    return Struct(M.Person, {"age": Int(), "peers": peers}, name="Person")
+
+
+def TeamS(d=2):
+    return Struct(M.Team, {"members": Seq(list[M.Person], list, PersonS(d), 1, "list[Person]")}, name="Team")
+
+
 def ChainS(d=2):
     nxt = Lazy(lambda: ChainS(max(d - 1, 0)))
     o = _opt_of(nxt, t.Optional[M.Chain], "Optional[Chain]", d > 0)
@@ -219,7 +228,7 @@ def wrappers():
 
 def recursive(d=2):
     return [TreeS(d), ChainS(d), PNodeS(d), DNodeS(d), TNodeS(d), PingS(d), DeptS(d), NTreeS(d), TDNodeS(d), HostS(d), ItemS(d),
-            CycS(d), IndS(d), TDTreeS(d)]
+            CycS(d), IndS(d), TDTreeS(d), TeamS(d)]
 
 
 def depth2():
@@ -257,7 +266,7 @@ CORE = {
     "Tree", "Chain", "DNode", "Ping", "Dept", "NTree", "TDNode", "Item", "Cyc", "Ind",
     "list[list[int]]", "dict[str,list[int]]", "list[Point]", "dict[str,Point]", "list[Optional[int]]",
     "tuple[Point,list[int]]", "Optional[Point]", "list[date]", "list[TD]", "list[tuple[int,str]]",
-    "Union[int,str]", "Union[Point,int]", "list[Union[int,str]]", "PlainNT", "None|date", "None|SPoint", "NFHolder", "Swap", "Kind", "bytearray", "MutableSet[int]", "str|None", "bool|None", "WithCV", "Gain", "Perm(Flag)", "Mode(IntFlag)", "Slug(str)", "Job", "TDOpt", "ExtOrder(b<-a)", "TDTree", "Union[str,None,int]", "Literal['2', 2, 'null', None]",
+    "Union[int,str]", "Union[Point,int]", "list[Union[int,str]]", "PlainNT", "None|date", "None|SPoint", "NFHolder", "Swap", "Kind", "bytearray", "MutableSet[int]", "str|None", "bool|None", "WithCV", "Gain", "Perm(Flag)", "Mode(IntFlag)", "Slug(str)", "Job", "TDOpt", "ExtOrder(b<-a)", "TDTree", "Union[str,None,int]", "Team", "Literal['2', 2, 'null', None]",
 }
 
 
